@@ -99,6 +99,14 @@ class Rule:
 CONF = Rule('enum', [(('C',), 'C'), (('N',), 'N')], 'F')
 PRIO = Rule('enum', [(('A',), 'A'), (('B',), 'B'), (('C',), 'C')], 'Z')
 NONASSOC = Rule('enum', [(('A', 'B'), 'C'), (('C',), 'A')], 'Z')          # the Lean counter-example (Props/C28)
+# order-free rules WITH two-value clauses (commutative and associative on their whole domain, checked by order_free()):
+# the result of a fold does not depend on the order, but a wrong pairing of clause values and operands shows
+ORDER_FREE_BINARY = [r_ for r_ in (
+    Rule('enum', [(('A', 'B'), 'B'), (('A',), 'A'), (('B',), 'B')], 'Z'),
+    Rule('enum', [(('A', 'B'), 'B'), (('A', 'C'), 'C'), (('B', 'C'), 'C'), (('A',), 'A'), (('B',), 'B'), (('C',), 'C')], 'Z'),
+    Rule('enum', [(('A', 'B'), 'B'), (('B',), 'B'), (('A',), 'A')], None),
+    Rule('enum', [(('A', 'B'), 'C'), (('C',), 'C'), (('A',), 'A'), (('B',), 'B')], 'Z'),
+) if r_.order_free()]
 
 
 def enum_rule(r, grammatical=True, alpha=None):
@@ -194,7 +202,9 @@ class ViralGen:
         k = r.random()
         if k < 0.5:
             rule = enum_rule(r)
-            if self.order_free_only:
+            if self.order_free_only and ORDER_FREE_BINARY and r.random() < 0.5:
+                rule = r.choice(ORDER_FREE_BINARY)
+            elif self.order_free_only:
                 for _ in range(20):
                     if rule.order_free():
                         break
